@@ -36,12 +36,21 @@ WkNext(r) ==
           ELSE IF base[w].st = "busy" /\ ~(\E u \in FlyOf(r.st) : u.w = w) THEN [base[w] EXCEPT !.st = "gone"]
           ELSE base[w]]
 
+(* what the triggering event carried (node 'runid') follows from the EVENTS, not from the node attribute the code
+   happens to keep: a request carries none, new data of a carries the run of the reply, a (re)load forgets all *)
+RidNext(r) ==
+    CASE r.ev = "Run" -> [x \in Alg |-> IF x \in ToSet(r.args.S) THEN None ELSE rid[x]]
+      [] r.ev = "Reply" /\ r.args.out = "success" /\ r.args.new /\ r.args.alg = A /\ Len(r.obs.reply) = 1
+                       -> [rid EXCEPT ![B] = r.obs.reply[1].run, ![R] = r.obs.reply[1].run]
+      [] r.ev = "Load" -> [x \in Alg |-> None]
+      [] OTHER -> rid
+
 Bind(r) ==
     /\ phase' = r.st.phase
     /\ gitrev' = r.st.rev
     /\ pend' = [x \in Alg |-> ToSet(r.st.todo[x])]
     /\ exec' = ExecOf(r.st)
-    /\ rid' = [x \in Alg |-> r.st.runid[x]]
+    /\ rid' = RidNext(r)
     /\ cluster' = ClusterOf(r.st)
     /\ idle' = r.st.idle_ids
     /\ fly' = FlyOf(r.st)
@@ -76,10 +85,6 @@ StepClauses(p, r) ==
               /\ m.run = IF Kind(m.alg) = "regress" THEN 0
                          ELSE IF rid[m.alg] # None THEN rid[m.alg]
                          ELSE IF Len(r.obs.drawn) > 0 THEN r.obs.drawn[1].run ELSE None)
-    \cup FailClause("C11.RunIdFromEventOnly",
-           \* what the triggering event carried (the node's run id) is changed by events only -- a request, new data
-           \* from a reply, a (re)load -- never by dispatching, registering, polling or losing a worker
-           (r.ev \in {"Tick", "Register", "Connect", "Poll", "Lost", "Notify"}) => rid' = rid)
     \cup FailClause("C11.Stay",
            \* bag(queued after) + bag(written) = bag(queued before) + bag(created), message by message
            r.ev = "Tick" =>
@@ -115,7 +120,7 @@ TraceNext ==
     /\ LET r == Rec(tid, l + 1) IN
        /\ Bind(r)
        /\ bad' = StepClauses(Rec(tid, l), r)
-       /\ drift' = ~ModelStep(r)
+       /\ drift' = (~ModelStep(r) \/ rid' # [x \in Alg |-> r.st.runid[x]])     \* the node attribute is compared as drift only
        /\ (bad' # {} => PrintT(<<"CLAUSE", Traces[tid].tid, l + 1, r.ev, bad'>>))
        /\ (drift' => PrintT(<<"DRIFT", Traces[tid].tid, l + 1, r.ev>>))
 
